@@ -85,3 +85,154 @@ pub fn legacy_reserve(fps: &[Footprint]) -> Vec<bool> {
 pub fn receipt_conflict(a: &Footprint, b: &Footprint) -> bool {
     crate::engine_impl::footprints_conflict(a, b)
 }
+
+// ----------------------------------------------------------------------------
+// engine_impl.rs / parallel: canonical merge of per-worker deltas
+// ----------------------------------------------------------------------------
+
+/// `engine_impl::merge_parallel_deltas` on one successful `WorkerResult` per entry of
+/// `workers` (each worker's ops emitted in the given order). `Err` carries the engine's
+/// error rendered as a static label (no formatting).
+pub fn merge_worker_ops(
+    workers: Vec<Vec<crate::tick_patch::WarpOp>>,
+) -> Result<Vec<crate::tick_patch::WarpOp>, &'static str> {
+    let results = workers
+        .into_iter()
+        .map(|ops| {
+            let mut delta = crate::tick_delta::TickDelta::new();
+            for op in ops {
+                delta.emit(op);
+            }
+            crate::parallel::WorkerResult::Success(delta)
+        })
+        .collect();
+    crate::engine_impl::verif_merge_parallel_deltas(results).map_err(|e| match e {
+        crate::engine_impl::EngineError::InternalCorruption(msg) => msg,
+        _ => "other engine error",
+    })
+}
+
+// ----------------------------------------------------------------------------
+// tick_patch.rs: state diff and replay
+// ----------------------------------------------------------------------------
+
+/// `tick_patch::diff_state`.
+#[must_use]
+pub fn diff_states(
+    before: &crate::warp_state::WarpState,
+    after: &crate::warp_state::WarpState,
+) -> Vec<crate::tick_patch::WarpOp> {
+    crate::tick_patch::diff_state(before, after)
+}
+
+/// `tick_patch::apply_ops_to_state`.
+///
+/// # Errors
+/// Whatever the wrapped function returns.
+pub fn apply_ops(
+    state: &mut crate::warp_state::WarpState,
+    ops: &[crate::tick_patch::WarpOp],
+) -> Result<(), crate::tick_patch::TickPatchError> {
+    crate::tick_patch::apply_ops_to_state(state, ops)
+}
+
+// ----------------------------------------------------------------------------
+// snapshot.rs / snapshot_accum.rs: the two state-root engines
+// ----------------------------------------------------------------------------
+
+/// `snapshot::compute_state_root`.
+#[must_use]
+pub fn state_root(state: &crate::warp_state::WarpState, root: &NodeKey) -> Hash {
+    crate::snapshot::compute_state_root(state, root)
+}
+
+/// `SnapshotAccumulator::from_warp_state(state).build(root, schema_hash, tick).state_root`.
+#[must_use]
+pub fn accumulator_root(state: &crate::warp_state::WarpState, root: &NodeKey) -> Hash {
+    crate::snapshot_accum::SnapshotAccumulator::from_warp_state(state)
+        .build(root, [0u8; 32], 0)
+        .state_root
+}
+
+// ----------------------------------------------------------------------------
+// provenance_codec.rs: retained local-commit records
+// ----------------------------------------------------------------------------
+
+/// `provenance_codec::decode_local_commit_v1`.
+///
+/// # Errors
+/// Whatever the wrapped function returns.
+pub fn provenance_decode_local_commit(
+    bytes: &[u8],
+) -> Result<crate::provenance_store::ProvenanceEntry, crate::provenance_codec::RetainedProvenanceError>
+{
+    crate::provenance_codec::decode_local_commit_v1(bytes)
+}
+
+/// `provenance_codec::encode_local_commit_v1`.
+///
+/// # Errors
+/// Whatever the wrapped function returns.
+pub fn provenance_encode_local_commit(
+    entry: &crate::provenance_store::ProvenanceEntry,
+) -> Result<Vec<u8>, crate::provenance_codec::RetainedProvenanceError> {
+    crate::provenance_codec::encode_local_commit_v1(entry)
+}
+
+// ----------------------------------------------------------------------------
+// causal_wal.rs: on-disk segment records
+// ----------------------------------------------------------------------------
+
+/// `causal_wal::read_segment_bytes`, with the result reduced to
+/// `(frame LSNs, committed transaction ids, torn tail)`; `Err(())` on any store error.
+///
+/// # Errors
+/// `Err(())` when the wrapped function returns an error.
+#[allow(clippy::result_unit_err, clippy::type_complexity)]
+pub fn wal_read_segment(bytes: &[u8]) -> Result<(Vec<u64>, Vec<Hash>, bool), ()> {
+    crate::causal_wal::verif_read_segment(bytes)
+}
+
+// ----------------------------------------------------------------------------
+// footprint_guard.rs / graph_view.rs: enforcement kernels
+// ----------------------------------------------------------------------------
+
+/// `footprint_guard::op_write_targets`, flattened to
+/// `(nodes, edges, attachments, is_instance_op, op_warp)`.
+#[cfg(any(debug_assertions, feature = "footprint_enforce_release"))]
+#[cfg(not(feature = "unsafe_graph"))]
+#[must_use]
+#[allow(clippy::type_complexity)]
+pub fn op_targets(
+    op: &crate::tick_patch::WarpOp,
+) -> (
+    Vec<NodeId>,
+    Vec<crate::ident::EdgeId>,
+    Vec<crate::attachment::AttachmentKey>,
+    bool,
+    Option<WarpId>,
+) {
+    let t = crate::footprint_guard::op_write_targets(op);
+    (t.nodes, t.edges, t.attachments, t.is_instance_op, t.op_warp)
+}
+
+/// `FootprintGuard::new(fp, warp, "verif", is_system).check_op(op)` (panics on violation).
+#[cfg(any(debug_assertions, feature = "footprint_enforce_release"))]
+#[cfg(not(feature = "unsafe_graph"))]
+pub fn guard_check_op(fp: &Footprint, warp: WarpId, is_system: bool, op: &crate::tick_patch::WarpOp) {
+    crate::footprint_guard::FootprintGuard::new(fp, warp, "verif", is_system).check_op(op);
+}
+
+/// Runs `f` on a `GraphView::new_guarded` over `store` with a guard built from `fp`.
+#[cfg(any(debug_assertions, feature = "footprint_enforce_release"))]
+#[cfg(not(feature = "unsafe_graph"))]
+pub fn with_guarded_view<R>(
+    store: &crate::graph::GraphStore,
+    fp: &Footprint,
+    is_system: bool,
+    f: impl FnOnce(crate::graph_view::GraphView<'_>) -> R,
+) -> R {
+    let guard =
+        crate::footprint_guard::FootprintGuard::new(fp, store.warp_id(), "verif", is_system);
+    f(crate::graph_view::GraphView::new_guarded(store, &guard))
+}
